@@ -202,6 +202,11 @@ def run(ctx, host=None):
     nf = option_forwarding(ctx, chk, R7, ['do_commit'])
     chk.require(nf >= 2, f'expected >= 2 forwarding sites of do_commit, found {nf}')
 
+    # rules of other properties that are necessary conditions of this one too: crash safety assumes packs are never truncated or rewritten in place by later operations (C13)
+    if host is None:
+        from ..report import host_modules
+        host_modules(chk, ctx, ['C13'])
+
     return chk.finish(
         explanation=('Static typestate analysis on inlined control-flow graphs with a generic-object construction: for every reachable '
                      '(node, state) pair -- i.e. every boundary between two I/O-relevant calls, on every path and loop iteration, per flag '
